@@ -207,7 +207,10 @@ def parse_race_reports(prefix, anchors):
 
 def classify_race(block, anchors):
     """A report is verdict-bearing only if both access stacks' top lnd frames
-    are in non-test, non-harness files of the lnd tree and one is anchored."""
+    are in non-test, non-harness files of the lnd tree, one is anchored, and
+    neither access is made by a component's Stop method (a shutdown-ordering
+    race such as WaitGroup.Add vs Wait cannot change what the property
+    observes; it is kept as a diagnostic, keyed `lifecycle:`)."""
     # split the two access stacks
     parts = re.split(r"\n\n", block.strip())
     stacks = []
@@ -216,24 +219,32 @@ def classify_race(block, anchors):
            part.strip().startswith("WARNING: DATA RACE"):
             stacks.append(part)
     tops = []
+    funcs = []
     for st in stacks[:2] if len(stacks) >= 2 else stacks:
-        files = re.findall(r"^\s+(/\S+\.go):(\d+)", st, re.M)
+        frames = re.findall(r"^\s+(\S+)\(\)\n\s+(/\S+\.go):(\d+)", st, re.M)
         top = None
-        for fpath, line in files:
+        fn = "?"
+        for fname, fpath, line in frames:
             if "/lnd" in fpath or fpath.startswith(repo_root()):
                 top = fpath
+                fn = fname.split("/")[-1]
                 break
-        if top is None and files:
-            top = files[0][0]
+        if top is None and frames:
+            top = frames[0][1]
+            fn = frames[0][0].split("/")[-1]
         tops.append(top or "?")
+        funcs.append(fn)
     def is_prod(f):
         return f != "?" and f.startswith(repo_root()) and not f.endswith("_test.go") \
             and "zz_verif" not in f and "/mock" not in os.path.basename(f) \
             and "test_utils" not in f
     rel = [os.path.relpath(t, repo_root()) if t.startswith(repo_root()) else t for t in tops]
+    lifecycle = any(re.search(r"\)\.(Stop|stop)$", fn) for fn in funcs)
     attributed = len(tops) >= 2 and all(is_prod(t) for t in tops) and \
-        any(r in anchors for r in rel)
-    key = "|".join(sorted(rel))
+        any(r in anchors for r in rel) and not lifecycle
+    key = "|".join(sorted(f"{r}:{fn}" for r, fn in zip(rel, funcs)))
+    if lifecycle:
+        key = "lifecycle:" + key
     return attributed, key
 
 
@@ -269,6 +280,7 @@ def merge_unit(results, unit, prop):
     diags = []
     for r in results:
         done = False
+        harness_fail = False
         last_case = None
         if os.path.exists(r["ndjson"]):
             for line in open(r["ndjson"], errors="replace"):
@@ -300,15 +312,42 @@ def merge_unit(results, unit, prop):
                         if len(samples) < 5:
                             samples.append(s)
                     notes.update(rec.get("notes") or {})
+                elif t == "harness_fail":
+                    harness_fail = True
                 elif t == "done":
                     done = True
-        if not done or r["rc"] != 0:
+        if done and r["rc"] == 1 and not harness_fail and race_only_failure(r["log"]):
+            # every failed sub-test failed only because the race detector
+            # reported something during it; the reports themselves are
+            # classified (attributed = violation, else diagnostic) below.
+            notes[f"shard{r['shard']}.race_flagged_subtests"] = True
+        elif not done or r["rc"] != 0:
             # a non-zero exit with a complete stream is a failed test
             # (t.Fatalf watchdog / harness error): inconclusive.
             incomplete.append({"shard": r["shard"], "rc": r["rc"], "log": r["log"],
                                "last_case": last_case})
     return {"counters": counters, "sigs": sigs, "samples": samples, "viols": viols,
             "notes": notes, "incomplete": incomplete, "diags": diags}
+
+
+RACE_FAIL_LINE = "race detected during execution of test"
+
+
+def race_only_failure(logpath):
+    """True iff the go test log shows failed tests and every message line
+    (`    file.go:123: text`) in it is the testing package's race notice."""
+    try:
+        txt = open(logpath, errors="replace").read()
+    except Exception:
+        return False
+    if "--- FAIL" not in txt or RACE_FAIL_LINE not in txt:
+        return False
+    if re.search(r"^(panic: |fatal error: )", txt, re.M):
+        return False
+    for m in re.finditer(r"^\s+\S+\.go:\d+: (.*)$", txt, re.M):
+        if RACE_FAIL_LINE not in m.group(1):
+            return False
+    return True
 
 
 def tail(path, n=60):
